@@ -6,3 +6,6 @@ import CruxVerif.Props.C09
 #print axioms Props.C09.resume_routes_exactly
 #print axioms Props.C09.registry_wf_invariant
 #print axioms Props.C09.unknown_id_panics
+#print axioms Props.C09.bridge_preserves_core_invariants
+#print axioms Props.C09.bridge_core_owns_channels
+#print axioms Props.C09.bridge_core_quiescent_flat
